@@ -133,6 +133,8 @@ type fdSide struct {
 	memoVals  map[types.Object]ast.Expr
 	// fork: functions of the package decided to be pure on the SSA (rules_t8c10_memo.go)
 	pureFuncs map[types.Object]bool
+	// fork: the parameter structure of the slice decoder, evaluated field by field (rules_t8c10_elem.go)
+	elem *c10Elem
 }
 
 // fdSingleDefs finds the locals of fd that are defined exactly once by a 1:1
@@ -488,6 +490,11 @@ func (c *fdCtx) ident(id *ast.Ident) string {
 		return s
 	}
 	if p, ok := c.params[o]; ok {
+		if p == "⊘" {
+			if t, ok := c.paramStruct(o); ok {
+				return t
+			}
+		}
 		return p
 	}
 	if a := c.aliasOf(o); a != nil {
@@ -2117,11 +2124,13 @@ type fdResult struct {
 	FuncsPure []string
 	// findings reported in their own words (rules_t8c10.go)
 	Notes []fdNote
+	// fork-only functions that give back their struct argument with some fields set to constants
+	Updaters []string
 }
 
 // ForkDiff compares the fork package with the upstream package.
-func ForkDiff(fork, up *packages.Package, files map[string]bool, laxObjs map[types.Object]bool, memo, pure map[types.Object]bool) *fdResult {
-	fs := &fdSide{fork: true, pkg: fork, funcs: fdCollectFuncs(fork, files), laxObjs: laxObjs, memo: memo, pureFuncs: pure, dropArgs: map[types.Object]map[int]bool{}, onlyHere: map[types.Object]bool{}}
+func ForkDiff(fork, up *packages.Package, files map[string]bool, laxObjs map[types.Object]bool, memo, pure map[types.Object]bool, elem *c10Elem) *fdResult {
+	fs := &fdSide{fork: true, pkg: fork, funcs: fdCollectFuncs(fork, files), laxObjs: laxObjs, memo: memo, pureFuncs: pure, elem: elem, dropArgs: map[types.Object]map[int]bool{}, onlyHere: map[types.Object]bool{}}
 	us := &fdSide{pkg: up, funcs: fdCollectFuncs(up, files), dropArgs: map[types.Object]map[int]bool{}, onlyHere: map[types.Object]bool{}}
 	fs.extraFields, us.extraFields = fdExtraFields(fork, up), fdExtraFields(up, fork)
 	for o := range laxObjs { // the lax field itself is an extra field by construction; assert it
@@ -2157,6 +2166,11 @@ func ForkDiff(fork, up *packages.Package, files map[string]bool, laxObjs map[typ
 			if t := fdTransparent(fs, fo, fd); t != nil {
 				fs.transparent[fo] = t
 				res.Transparent = append(res.Transparent, "fork:"+k)
+				continue
+			}
+			// a function that gives back its struct argument with some fields set to constants (rules_t8c10.go)
+			if fdUpdater(fs, fo, fd) {
+				res.Updaters = append(res.Updaters, k)
 				continue
 			}
 			res.FuncsOnlyFork = append(res.FuncsOnlyFork, k)
